@@ -1,4 +1,4 @@
-import QibProofs.Lemmas.CircuitNetRun
+import QibProofs.Lemmas.CircuitNetMergeData
 /-!
 C05 — All views of a circuit agree. **Tensor-network part**: the network built by `Circuit.as_tensornet` is consistent,
 has two open axes per wire (outputs first, then inputs) and contracts to the circuit matrix.
@@ -185,6 +185,19 @@ theorem C05_circuitNet_step_consistent (fields : List FieldSpec) (n : Nat) (tn t
   refine ⟨h1, h1.2, ?_, h3⟩
   simp only [netShape, virt, hv, bind, Except.bind, pure, Except.pure, hs]
 
+/-- **the `assert net.is_consistent()` of the loop never fires**: with its data dictionary, too, whatever the loop body
+returns before its assertion passes `TensorNetwork.is_consistent()` – `merge` invents no tensor (every real tensor of the
+merged network has the shape and the data reference of a real tensor of one of the operands), the clash check makes
+the united dictionary fit both, `transpose` touches the virtual tensor only -/
+theorem C05_circuitNet_assert_never_fires (fields : List FieldSpec) (n : Nat) (tn tn' : TN α) (p : PGate α)
+    (hst : StateOK n tn) (h : gateStepCore fields n tn p = .ok tn') (htwo : C06.TwoAxesPerWire p.g)
+    (hfresh : ∀ gtn, gateNet p.g = .ok gtn → ∀ k ∈ dkeys gtn.data, k ≠ 0 → k ≠ p.ref0) :
+    GateNet.isConsistentData tn' = .ok true ∧ gateStep fields n tn p = .ok tn' := by
+  have hd := gateStepCore_consistentData hst h htwo hfresh
+  refine ⟨hd, ?_⟩
+  simp only [gateStep, h, bind, Except.bind, assertConsistent, hd, liftT, Bool.not_true, Bool.false_eq_true, if_false,
+    pure, Except.pure]
+
 /-- **the network of a whole circuit is consistent** (symbolically and with its data dictionary) – by induction over the
 gate list, for all two-level registers and all gates with two axes per wire -/
 theorem C05_circuitNet_consistent (fields : List FieldSpec) (instrs : List (CInstr α)) (tn : TN α)
@@ -264,18 +277,16 @@ theorem C05_idle_wires_ones (wd : List Nat) (r : DT α) (am : List Nat)
 `to_full_tensor`) returns `psi` for a circuit whose matrix `P` exists, `psi` has shape `(2,)*n` and
 `psi[o] = P[bitsVal o, 0]`. Corollary of `C05_circuitNet_full`, `C08_merge_full` (the last merge contracts the inputs
 with the product of the `|0>` vectors) and the soundness of `as_einsum` (C07).
-`hcd`: the network handed to `contract_einsum` passes `TensorNetwork.is_consistent()` – the code does not assert it
-after this last merge; the symbolic part is proved here (C08), the data part (every tensor's reference is in the united
-dictionary with the tensor's shape) is evaluated by the model and compared with the implementation on every run. -/
+The network handed to `contract_einsum` passes `TensorNetwork.is_consistent()` although the code does not assert it
+after this last merge: `merge` invents no tensor (`merge_realIn`), so the united data dictionary fits. -/
 theorem C05_tnRun_eq_col0 (fields : List FieldSpec) (instrs : List (CInstr α)) (tor bor : List Int) (psi : DT α)
     (P : DMat α (2 ^ numWires fields)) (hrun : tnRun fields instrs tor bor = .ok psi)
     (hmat : circuitMatrix fields (instrs.map CInstr.toInstr) = .ok P)
-    (hg : ∀ p, CInstr.gate p ∈ instrs → GateHyp p)
-    (hcd : ∀ tn', tnRunNet fields instrs tor bor = .ok tn' → GateNet.isConsistentData tn' = .ok true) :
+    (hg : ∀ p, CInstr.gate p ∈ instrs → GateHyp p) :
     psi.shape = rep2 (numWires fields) ∧
       ∀ o : List Nat, o.length = numWires fields → Bits o → psi.get o = entry P (bitsVal o) 0 := by
   obtain ⟨tn', r, am, hnet', hce, hft⟩ := tnRun_ok hrun
-  obtain ⟨init, tn, hinit, hcirc, hmerge⟩ := tnRunNet_ok hnet'
+  obtain ⟨init, tn, hinit, hinitd, hcirc, hmerge⟩ := tnRunNet_ok hnet'
   obtain ⟨hwd, hst⟩ := circuit_state fields instrs tn P hcirc hmat hg
   rw [hwd, initTN_eq] at hinit
   simp only [Except.ok.injEq] at hinit
@@ -284,7 +295,12 @@ theorem C05_tnRun_eq_col0 (fields : List FieldSpec) (instrs : List (CInstr α)) 
   obtain ⟨ho, hm, hcl, hdata⟩ := mergeTN_ok hmerge
   obtain ⟨va, hva, hsa⟩ := hst.shape
   obtain ⟨hinv', ⟨v', hv', hsh'⟩, hval⟩ := sim_merge_full hst.inv (initNetC_inv _) ho hva (initNetC_virt _) hsa rfl hm tn'.D
-  have hd := contractEinsum_dense hinv' (hcd tn' hnet') hce
+  have hnd0 : (dkeys (initDataC (α := α) (numWires fields))).Nodup := by
+    unfold initDataC; split <;> simp [dkeys]
+  have hcd : GateNet.isConsistentData tn' = .ok true :=
+    mergeTN_consistentData hst.inv (initNetC_inv _) hst.data hinitd hnd0
+      (simJoin_dims hva (initNetC_virt _) hsa rfl) hmerge
+  have hd := contractEinsum_dense hinv' hcd hce
   rw [hd] at hft
   simp only [fullTensor, virt, hv', bind, Except.bind, pure, Except.pure, Except.ok.injEq] at hft
   subst hft
@@ -376,5 +392,21 @@ example : (circuitMatrix exFields (exCircuit.map CInstr.toInstr)).toBool = true 
 example : (match circuitNet exFields exCircuit with
     | .ok tn => full tn.net tn.D [1, 0, 0, 0] == 1 && full tn.net tn.D [1, 1, 0, 1] == 0 && full tn.net tn.D [0, 1, 0, 1] == -1
     | .error _ => false) = true := by decide +kernel
+
+/-- the simulator on the same circuit: the state `(|01⟩ + |10⟩)` (unnormalised over ℤ) = column 0 of the matrix -/
+example : (match tnRun exFields exCircuit [-1, 0, 1] [0, 1], circuitMatrix exFields (exCircuit.map CInstr.toInstr) with
+    | .ok psi, .ok P => psi.shape == [2, 2] && [psi.get [0, 0], psi.get [0, 1], psi.get [1, 0], psi.get [1, 1]] == [0, 1, 1, 0] &&
+        [entry P 0 0, entry P 1 0, entry P 2 0, entry P 3 0] == [0, 1, 1, 0]
+    | _, _ => false) = true := by decide +kernel
+
+/-- the hypotheses on the gates hold for the two gates of the example -/
+example : ∀ p, CInstr.gate p ∈ exCircuit → GateHyp p := by
+  intro p hp
+  simp only [exCircuit, List.mem_cons, List.not_mem_nil, or_false, reduceCtorEq, false_or, CInstr.gate.injEq] at hp
+  rcases hp with rfl | rfl
+  · exact C05_gateHyp_of_class _ (by intro w m h; simp only [exH, G.leaf.injEq] at h; exact h.1.symm)
+      (by intro n x m tr h; cases h) (by intro n u un h; cases h) (by decide)
+  · exact C05_gateHyp_of_class _ (by intro w m h; cases h) (by intro n x m tr h; cases h) (by intro n u un h; cases h)
+      (by decide)
 
 end Qib.C05Net
